@@ -134,12 +134,12 @@ Section TypedWf.
     eqm_Q x /\ (forall key inner, x = VEntry key inner -> eqm_Q inner).
 
   Lemma eqm_typed_elem_wf d fd v :
-    eqm_P_typed v -> msg_typed_elem slow (msg_typed slow S d) fd v = true -> eqm_wf S (f_kind fd) v = true.
+    eqm_P_typed v -> msg_typed_elem slow (msg_enc_body S) (msg_typed slow S d) fd v = true -> eqm_wf S (f_kind fd) v = true.
   Proof.
     intros [Q _]. unfold msg_typed_elem. destruct (f_kind fd) as [sk|t|t], v as [s|fs u|k0 x0]; try discriminate.
     - reflexivity.
     - intros H. eapply Q; [reflexivity|exact H].
-    - rewrite !andb_true_iff. intros [[_ H] _]. eapply Q; [reflexivity|exact H].
+    - rewrite !andb_true_iff. intros [H _]. eapply Q; [reflexivity|exact H].
   Qed.
 
   Lemma eqm_typed_wf_all : forall x, eqm_P_typed x.
